@@ -187,18 +187,18 @@ package gpbft
 
 //@ axiom validation_error_sentinels_are_distinct: ErrValidationInvalid != ErrValidationTooOld && ErrValidationInvalid != ErrValidationNoCommittee && ErrValidationInvalid != ErrValidationNotRelevant && ErrValidationInvalid != ErrValidationWrongBase && ErrValidationInvalid != ErrValidationWrongSupplement && ErrValidationTooOld != ErrValidationNoCommittee && ErrValidationTooOld != ErrValidationNotRelevant && ErrValidationNoCommittee != ErrValidationNotRelevant
 
-//@ pred noWrap(cur uint64, lookback uint64) = lookback > 0 && cur + lookback <= 18446744073709551615
+//@ pred windowNoWrap(cur uint64, lookback uint64) = lookback > 0 && cur + lookback <= 18446744073709551615
 
 //@ func (*cachingValidator).validateByProgress
 //@   property C05 C13
 //@   modifies auto
 //@   at return 0
-//@     before[beyond_the_committee_lookback_is_no_committee] noWrap(res(progress, 1).ID, v.committeeLookback) && msg.Vote.Instance >= res(progress, 1).ID + v.committeeLookback ==> arg(0) == ErrValidationNoCommittee
-//@     before[future_instances_inside_the_lookback_pass] noWrap(res(progress, 1).ID, v.committeeLookback) && msg.Vote.Instance > res(progress, 1).ID && msg.Vote.Instance < res(progress, 1).ID + v.committeeLookback ==> arg(0) == nil
-//@     before[decide_of_the_previous_instance_passes] noWrap(res(progress, 1).ID, v.committeeLookback) && msg.Vote.Instance + 1 == res(progress, 1).ID && msg.Vote.Phase == DECIDE_PHASE ==> arg(0) == nil
-//@     before[older_than_that_is_too_old] noWrap(res(progress, 1).ID, v.committeeLookback) && msg.Vote.Instance < res(progress, 1).ID && !(msg.Vote.Instance + 1 == res(progress, 1).ID && msg.Vote.Phase == DECIDE_PHASE) ==> arg(0) == ErrValidationTooOld
-//@     before[current_instance_relevant_messages_pass] noWrap(res(progress, 1).ID, v.committeeLookback) && msg.Vote.Instance == res(progress, 1).ID && relevantNow(msg.Vote.Phase, msg.Vote.Round, res(progress, 1).Phase, res(progress, 1).Round) ==> arg(0) == nil
-//@     before[current_instance_irrelevant_messages_are_not_relevant] noWrap(res(progress, 1).ID, v.committeeLookback) && msg.Vote.Instance == res(progress, 1).ID && !relevantNow(msg.Vote.Phase, msg.Vote.Round, res(progress, 1).Phase, res(progress, 1).Round) ==> arg(0) == ErrValidationNotRelevant
+//@     before[beyond_the_committee_lookback_is_no_committee] windowNoWrap(res(progress, 1).ID, v.committeeLookback) && msg.Vote.Instance >= res(progress, 1).ID + v.committeeLookback ==> arg(0) == ErrValidationNoCommittee
+//@     before[future_instances_inside_the_lookback_pass] windowNoWrap(res(progress, 1).ID, v.committeeLookback) && msg.Vote.Instance > res(progress, 1).ID && msg.Vote.Instance < res(progress, 1).ID + v.committeeLookback ==> arg(0) == nil
+//@     before[decide_of_the_previous_instance_passes] windowNoWrap(res(progress, 1).ID, v.committeeLookback) && msg.Vote.Instance + 1 == res(progress, 1).ID && msg.Vote.Phase == DECIDE_PHASE ==> arg(0) == nil
+//@     before[older_than_that_is_too_old] windowNoWrap(res(progress, 1).ID, v.committeeLookback) && msg.Vote.Instance < res(progress, 1).ID && !(msg.Vote.Instance + 1 == res(progress, 1).ID && msg.Vote.Phase == DECIDE_PHASE) ==> arg(0) == ErrValidationTooOld
+//@     before[current_instance_relevant_messages_pass] windowNoWrap(res(progress, 1).ID, v.committeeLookback) && msg.Vote.Instance == res(progress, 1).ID && relevantNow(msg.Vote.Phase, msg.Vote.Round, res(progress, 1).Phase, res(progress, 1).Round) ==> arg(0) == nil
+//@     before[current_instance_irrelevant_messages_are_not_relevant] windowNoWrap(res(progress, 1).ID, v.committeeLookback) && msg.Vote.Instance == res(progress, 1).ID && !relevantNow(msg.Vote.Phase, msg.Vote.Round, res(progress, 1).Phase, res(progress, 1).Round) ==> arg(0) == ErrValidationNotRelevant
 //@     before[never_branded_invalid_here] arg(0) != ErrValidationInvalid
 
 // Committees handed out by a provider carry a well-formed power table (the shape PowerTable.Add / rescale establish).
@@ -210,7 +210,7 @@ package gpbft
 // The verdict nil is reached in two ways only: the cache says this exact message (its full CBOR, in the namespace of
 // its kind, in its instance's group) was accepted before; or every rule of the property held in this call.
 //@ func (*cachingValidator).validateMessageWithVoteValueKey
-//@   property C05 C13
+//@   property C05 C13 C03
 //@   modifies auto
 //@   maypanic
 //@   opaque Get
@@ -277,7 +277,7 @@ package gpbft
 // for bottom or PREPARE for the same value from the previous round; COMMIT by PREPARE for the same value in the same
 // round; DECIDE by COMMIT for the same value (any round).
 //@ func (*cachingValidator).validateJustification
-//@   property C05 C13
+//@   property C05 C13 C03
 //@   harness harness/validator_sentinel_round_test.go
 //@   requires msg != nil && comt != nil && tblOK(comt.PowerTable) && (msg.Justification != nil ==> ssumDef(comt.PowerTable.ScaledPower, msg.Justification.Signers))
 //@   requires !((msg.Vote.Phase == CONVERGE_PHASE || msg.Vote.Phase == PREPARE_PHASE) && msg.Vote.Round == 0)
@@ -359,3 +359,96 @@ package gpbft
 //@     before[the_message_handed_on_is_the_completed_one] pmsg == res(PartialMessage, 1)
 //@   at return 0
 //@     before[accepted_only_at_the_end] arg(1) == nil ==> dominatedBy(validateByProgress, 1)
+
+// ---- C03: a reported decision is a verifiable finality proof ----
+
+//@ func sort.Ints
+//@   trusted sort.Ints sorts the slice in place
+//@   modifies x[]
+//@   ensures forall(i, 0, len(x) - 1, x[i] <= x[i+1], trigger(x[i]))
+//@   ensures old(forall(j, 0, len(x), x[j] >= 0)) ==> forall(i, 0, len(x), x[i] >= 0, trigger(x[i]))
+
+// Sum of scaled power over the first n entries of an index list.
+//@ spec func isum(sp []int64, idx []int, n mathint) mathint
+//@ pred isumDef(sp []int64, idx []int) = isum(sp, idx, 0) == 0
+//@     && forall(k, 0, len(idx), isum(sp, idx, k+1) == isum(sp, idx, k) + sp[idx[k]], trigger(idx[k]))
+
+//@ pred lookupOK(pt *PowerTable) = forall(ActorID(a), has(pt.Lookup, a) ==> 0 <= pt.Lookup[a] && pt.Lookup[a] < len(pt.Entries))
+
+// The quorum handed out for a key: table indices in increasing order, all inside the table, one stored signature per
+// index, and the scaled power of exactly these indices is a strong quorum of the table's total.
+//@ func (*quorumState).FindStrongQuorumFor
+//@   property C03
+//@   requires q.powerTable != nil && tblOK(q.powerTable) && lookupOK(q.powerTable)
+//@   modifies auto
+//@   maypanic
+//@   ensures[only_with_a_recorded_strong_quorum] result1 ==> old(has(q.chainSupport, key) && q.chainSupport[key].hasStrongQuorum)
+//@   ensures[signers_are_table_indices_in_increasing_order] result1 ==> forall(j, 0, len(result0.Signers), 0 <= result0.Signers[j] && result0.Signers[j] < len(q.powerTable.Entries)) && forall(j, 0, len(result0.Signers) - 1, result0.Signers[j] <= result0.Signers[j+1], trigger(result0.Signers[j]))
+//@   ensures[one_signature_per_signer] result1 ==> len(result0.Signatures) == len(result0.Signers) && len(result0.Signers) > 0
+//@   at return 2
+//@     before[the_listed_signers_power_is_a_strong_quorum] justificationPower == isum(q.powerTable.ScaledPower, signers, i + 1) && res(IsStrongQuorum, 1) && argOf(IsStrongQuorum, 1, 0) == justificationPower && argOf(IsStrongQuorum, 1, 1) == q.powerTable.ScaledTotal
+//@          && 3 * isum(q.powerTable.ScaledPower, signers, i + 1) >= 2 * q.powerTable.ScaledTotal
+//@   loop 1
+//@     invariant q.powerTable == old(q.powerTable) && forall(j, 0, len(signers), 0 <= signers[j], trigger(signers[j]))
+//@   loop 2
+//@     assume isumDef(q.powerTable.ScaledPower, signers)
+//@     invariant justificationPower == isum(q.powerTable.ScaledPower, signers, iter) && 0 <= justificationPower && justificationPower <= 65535 * iter && iter <= len(signers)
+//@     invariant len(signatures) == iter && q.powerTable == old(q.powerTable) && tblOK(q.powerTable)
+//@     invariant forall(j, 0, iter, signers[j] < len(q.powerTable.Entries)) && forall(j, 0, len(signers), 0 <= signers[j], trigger(signers[j]))
+//@     invariant forall(j, 0, len(signers) - 1, signers[j] <= signers[j+1], trigger(signers[j]))
+
+// The justification built from a quorum: vote = (this instance, given round and step, given value, the instance's
+// supplemental data); signers = the quorum's signer list as a bit field; signature = the aggregate of exactly the
+// quorum's signatures for exactly those signers.
+//@ func (*instance).buildJustification
+//@   property C03
+//@   modifies auto
+//@   maypanic
+//@   ensures[vote_is_for_this_instance_round_step_value_and_supplemental_data] result != nil && result.Vote.Instance == i.current.ID && result.Vote.Round == round && result.Vote.Phase == phase && result.Vote.Value == value && result.Vote.SupplementalData == *i.supplementalData
+//@   ensures[signers_and_aggregate_come_from_the_quorum] result.Signers == res(SignersBitfield, 1) && argOf(SignersBitfield, 1, 0) == quorum && result.Signature == res(Aggregate, 1, 0) && res(Aggregate, 1, 1) == nil
+//@   at Aggregate 1
+//@     before[aggregates_the_quorums_signatures_with_the_instances_aggregator] arg(0) == quorum && arg(1) == i.aggregateVerifier
+
+// A decision is reported only from a strong quorum of DECIDE votes: the value with a strong quorum, the minimal quorum
+// for that value's key out of the DECIDE tally, and a justification for round 0 of the DECIDE step.
+//@ func (*instance).tryDecide
+//@   property C03
+//@   requires i.decision != nil && i.decision.powerTable != nil && tblOK(i.decision.powerTable) && lookupOK(i.decision.powerTable)
+//@   modifies auto
+//@   maypanic
+//@   opaque FindStrongQuorumValue, tryRebroadcast
+//@   at terminate 1
+//@     before[terminates_with_a_round_zero_decide_justification_for_the_quorum_value] arg(1) == res(buildJustification, 1)
+//@          && argOf(buildJustification, 1, 1) == res(FindStrongQuorumFor, 1, 0) && argOf(buildJustification, 1, 2) == 0 && argOf(buildJustification, 1, 3) == DECIDE_PHASE && argOf(buildJustification, 1, 4) == res(FindStrongQuorumValue, 1, 0)
+//@     before[quorum_is_the_decide_tallys_for_the_key_of_that_value] res(FindStrongQuorumValue, 1, 1) && res(FindStrongQuorumFor, 1, 1) && argOf(FindStrongQuorumFor, 1, 0) == i.decision && argOf(FindStrongQuorumValue, 1, 0) == i.decision && argOf(FindStrongQuorumFor, 1, 1) == res(Key, 1) && argOf(Key, 1, 0) == res(FindStrongQuorumValue, 1, 0)
+
+//@ func (*instance).terminate
+//@   property C03
+//@   modifies auto
+//@   maypanic
+//@   ensures[the_decision_is_recorded_as_given] i.terminationValue == decision && i.value == old(decision.Vote.Value) && i.current.Phase == TERMINATED_PHASE
+
+// What the participant reports is the recorded termination value of the instance it finishes.
+//@ func (*Participant).finishCurrentInstance
+//@   property C03
+//@   modifies auto
+//@   maypanic
+//@   ensures[reports_the_recorded_decision] old(p.gpbft) != nil ==> result == old(p.gpbft.terminationValue)
+
+//@ func (*Participant).handleDecision
+//@   property C03
+//@   modifies auto
+//@   maypanic
+//@   at ReceiveDecision 1
+//@     before[the_host_gets_the_finished_instances_decision_only_once_terminated] arg(1) == res(finishCurrentInstance, 1) && res(terminated, 1)
+
+//@ structural storesonly instance.terminationValue in (*instance).terminate : a decision is recorded only by terminate
+//@   property C03
+//@ structural callersonly (*instance).terminate in (*instance).tryDecide : a decision is recorded only from a strong quorum of DECIDE votes
+//@   property C03
+
+// Supplemental data are equal exactly when both the commitments and the next power table's CID are.
+//@ func (*SupplementalData).Eq
+//@   property C03 C05
+//@   modifies nothing
+//@   ensures[compares_commitments_and_power_table_cid] result == (d.Commitments == other.Commitments && d.PowerTable == other.PowerTable)
